@@ -41,7 +41,7 @@ type HistOpt struct {
 // snapshot after each epoch; snapshots are kept open with KeepProb, so older
 // and newer versions of keys stay physically present under the kept ones.
 func BuildHistory(r *rand.Rand, db *DB, o HistOpt) *Hist {
-	h := &Hist{DB: db, Model: NewModel(), NKeys: o.NKeys, Versions: map[int]int{}}
+	h := &Hist{DB: db, Model: db.NewModel(), NKeys: o.NKeys, Versions: map[int]int{}}
 	if o.Writers <= 0 {
 		o.Writers = 1
 	}
@@ -158,6 +158,6 @@ func (h *Hist) keyOfSeek(b []byte) string {
 }
 
 // lowerBound returns the index of the first entry with key >= k.
-func lowerBound(want []Entry, k string) int {
-	return sort.Search(len(want), func(i int) bool { return want[i].Key >= k })
+func lowerBound(db *DB, want []Entry, k string) int {
+	return sort.Search(len(want), func(i int) bool { return !db.KeyLess(want[i].Key, k) })
 }
